@@ -92,3 +92,6 @@ Lemma In_firstn' {A} (x : A) n l : In x (firstn n l) -> In x l.
 Proof. revert l. induction n as [|n IH]; intros l H; [contradiction|]. destruct l; [exact H|]. destruct H as [H|H]; [left; exact H|right; apply IH; exact H]. Qed.
 
 Ltac zlens := rewrite ?zlen_app, ?zlen_cons, ?zlen_nil, ?zlen_map, ?zlen_repeat in *.
+
+Lemma bytes_eq_dec (a b : bytes) : {a = b} + {a <> b}.
+Proof. apply list_eq_dec. intros x y. destruct (Byte.eqb x y) eqn:E; [left; apply byte_eqb_eq; exact E|right; apply byte_eqb_neq; exact E]. Qed.
